@@ -1,1 +1,2 @@
 pub mod c19;
+pub mod c17;
